@@ -123,7 +123,8 @@ def run(rep, tier):
                     tcalls = [x.get('callee', {}).get('q', '') for x in sub(then) if x.get('callee')]
                     if any(q.endswith('DelayedEventQueue::cancelDelayed') for q in tcalls) and any(q.endswith('::erase') for q in tcalls):
                         both = True
-    rep.check(okloop and both, 'R09.4', 'InterpreterImpl::cancelDelayed', cd.where(), 'walks _delayedEventTargets begin..end: %s; a match is cancelled in the queue and erased: %s' % (okloop, both))
+    early = [s_ for lp in loops for s_ in sub(lp['c'][-1]) if s_['k'] in ('BreakStmt', 'ReturnStmt', 'GotoStmt')]
+    rep.check(okloop and both and not early, 'R09.4', 'InterpreterImpl::cancelDelayed', cd.where(), 'walks _delayedEventTargets begin..end: %s; a match is cancelled in the queue and erased: %s; no early exit from the loop (every match is visited): %s' % (okloop, both, not early))
     qcd = fb.fn(DQ + '::cancelDelayed')
     for st in sub(qcd.d['body']):
         pass
@@ -187,15 +188,78 @@ def run(rep, tier):
     while il and il['k'] != 'InitListExpr' and il.get('c'):
         il = il['c'][0]
     fields = il.get('c', []) if il else []
-    def shape(n):
-        n = strip(n)
-        if n['k'] == 'BinaryOperator' and n.get('op') in ('/', '%', '*'):
-            return '(%s%s%s)' % (shape(n['c'][0]), n['op'], shape(n['c'][1]))
+    defs = path.local_defs(enq)
+    delay_param = [p_ for p_ in enq.d['params'] if p_['name'] == 'delayMs']
+    if not delay_param or len(fields) != 2:
+        raise AnalysisBroken('enqueueDelayed: delayMs parameter / two timeval fields not found')
+    YEAR_MS = 365 * 24 * 3600 * 1000
+    narrowing = []
+
+    def width(t):
+        t = t.replace('const ', '').strip()
+        if t in ('int32_t', 'int', '__int32_t', 'signed int', 'long int32_t'):
+            return (-(1 << 31), (1 << 31) - 1)
+        if t in ('uint32_t', 'unsigned int', '__uint32_t'):
+            return (0, (1 << 32) - 1)
+        if t in ('short', 'int16_t'):
+            return (-(1 << 15), (1 << 15) - 1)
+        if t in ('size_t', 'unsigned long', 'uint64_t', 'std::size_t', '__suseconds_t', '__time_t', 'long', 'int64_t', 'time_t', 'suseconds_t', 'unsigned long long', 'long long'):
+            return (-(1 << 63), (1 << 64) - 1)
+        return None
+
+    def norm(n, depth=0):
+        """(normal form string, (lo, hi)) of an integer expression over delayMs, following local definitions"""
+        k = n['k']
+        if k in ('ImplicitCastExpr', 'CXXStaticCastExpr', 'CStyleCastExpr', 'CXXFunctionalCastExpr', 'ParenExpr', 'ConstantExpr'):
+            f_, iv = norm(n['c'][0], depth)
+            w = width(n.get('t', '')) if k != 'ParenExpr' else None
+            if w is not None and iv is not None and (iv[0] < w[0] or iv[1] > w[1]):
+                narrowing.append((n, iv, n.get('t')))
+                iv = w
+            return f_, iv
         cv = tab.const_of(n)
-        if cv is not None:
-            return str(cv)
-        if n['k'] == 'DeclRefExpr':
-            return n['ref']['name']
-        return '?'
-    shapes = [shape(x) for x in fields]
-    rep.check(shapes == ['(delayMs/1000)', '((delayMs%1000)*1000)'], 'R09.6', 'enqueueDelayed|timeval', locstr(tv), 'timeval fields: %s' % shapes)
+        if cv is not None and k in ('IntegerLiteral',):
+            return str(cv), (cv, cv)
+        if k == 'DeclRefExpr':
+            lid = n['ref'].get('lid')
+            if lid == delay_param[0]['lid']:
+                return 'delayMs', (0, YEAR_MS)
+            if lid in defs and len(defs[lid]) == 1 and depth < 4:
+                f_, iv = norm(defs[lid][0], depth + 1)
+                w = width(n.get('t', ''))
+                if w is not None and iv is not None and (iv[0] < w[0] or iv[1] > w[1]):
+                    narrowing.append((n, iv, n.get('t')))
+                    iv = w
+                return f_, iv
+            return n['ref']['name'], None
+        if k == 'BinaryOperator' and n.get('op') in ('+', '-', '*', '/', '%'):
+            (fa, ia), (fb_, ib) = norm(n['c'][0], depth), norm(n['c'][1], depth)
+            iv = None
+            if ia and ib:
+                op = n['op']
+                if op == '+':
+                    iv = (ia[0] + ib[0], ia[1] + ib[1])
+                elif op == '-':
+                    iv = (ia[0] - ib[1], ia[1] - ib[0])
+                elif op == '*':
+                    c_ = [ia[0] * ib[0], ia[0] * ib[1], ia[1] * ib[0], ia[1] * ib[1]]
+                    iv = (min(c_), max(c_))
+                elif op == '/' and ib[0] > 0:
+                    iv = (ia[0] // ib[1], ia[1] // ib[0])
+                elif op == '%' and ib[0] > 0 and ia[0] >= 0:
+                    iv = (0, min(ia[1], ib[1] - 1))
+            return '(%s%s%s)' % (fa, n['op'], fb_), iv
+        return '?', None
+    forms = [norm(x) for x in fields]
+    shapes = [f_ for f_, _ in forms]
+    GOOD_SHAPES = (['(delayMs/1000)', '((delayMs%1000)*1000)'], ['((delayMs*1000)/1000000)', '((delayMs*1000)%1000000)'])
+    if shapes not in GOOD_SHAPES:
+        if any('?' in x for x in shapes):
+            raise AnalysisBroken('enqueueDelayed: timeval fields not in a recognised arithmetic form: %s' % shapes)
+        rep.fail('R09.6', 'enqueueDelayed|timeval', locstr(tv), 'timeval fields computed as %s; expected seconds = ms/1000 and microseconds = (ms%%1000)*1000' % shapes)
+    else:
+        rep.ok('R09.6', 'enqueueDelayed|timeval', 'timeval fields: %s' % shapes)
+    for n, iv, t in narrowing:
+        rep.fail('R09.6', 'enqueueDelayed|narrowing to %s' % t, locstr(n), 'for delays up to one year the value in [%d, %d] does not fit the %s it is converted to: the delay wraps (fires early / out of order)' % (iv[0], iv[1], t))
+    if not narrowing:
+        rep.ok('R09.6', 'enqueueDelayed|no-narrowing', 'interval analysis for delayMs in [0, 1 year]: every conversion on the way to the timeval fits its target type')
